@@ -478,6 +478,7 @@ func pmReportReached(ctx *core.Ctx) {
 var famAll = map[string]bool{"set": true, "arith": true, "mult": true}
 var famAllSmall = map[string]bool{"set": true, "arith": true, "mult": true, "small-alphabets": true}
 var famMult = map[string]bool{"mult": true}
+var famMultSmall = map[string]bool{"mult": true, "small-alphabets": true}
 
 var (
 	c12Full1   = newPointMachine("C12/opseq-full-depth1", "full1", 3, famAll)
@@ -485,6 +486,7 @@ var (
 	c12Reduced = newPointMachine("C12/opseq-reduced", "reduced", 2, famAllSmall)
 	c01Full1   = newPointMachine("C01/opseq-mult-depth1", "full1", 3, famMult)
 	c01Full    = newPointMachine("C01/opseq-mult", "full", 3, famMult)
+	c01Reduced = newPointMachine("C01/opseq-mult-reduced", "reduced", 2, famMultSmall)
 )
 
 func init() { register("C12", "model_checking", runC12) }
